@@ -130,7 +130,79 @@ def insert_log(fn: ast.AST) -> int:
     return k
 
 
-OPS = {"rename-locals": rename_locals, "temp-return": temp_return, "flip-if": flip_if, "insert-log": insert_log}
+def annotate_locals(fn: ast.AST) -> int:
+    """First plain assignment `x = e` of each local becomes `x: object = e`."""
+    names = _locals_of(fn)
+    done = set()
+    k = 0
+
+    class T(ast.NodeTransformer):
+        def visit_FunctionDef(self, n):
+            return n if n is not fn else self.generic_visit(n)
+        visit_AsyncFunctionDef = visit_FunctionDef
+
+        def visit_Lambda(self, n):
+            return n
+
+        def visit_Assign(self, n):
+            nonlocal k
+            if len(n.targets) == 1 and isinstance(n.targets[0], ast.Name) and n.targets[0].id in names and n.targets[0].id not in done:
+                done.add(n.targets[0].id)
+                k += 1
+                return ast.AnnAssign(target=ast.Name(id=n.targets[0].id, ctx=ast.Store()), annotation=ast.Name(id="object", ctx=ast.Load()), value=n.value, simple=1)
+            return n
+    T().generic_visit(fn)
+    return k
+
+
+def extract_arg(fn: ast.AST) -> int:
+    """`f(a, g(x))` (as a statement or the right-hand side of an assignment / return) becomes `_ev = g(x); f(a, _ev)` when everything
+    evaluated before that argument is a name, constant or attribute chain."""
+    k = 0
+
+    def simple(e):
+        return isinstance(e, (ast.Name, ast.Constant)) or (isinstance(e, ast.Attribute) and simple(e.value))
+
+    def do(body):
+        nonlocal k
+        out = []
+        for st in body:
+            call = None
+            if isinstance(st, ast.Expr) and isinstance(st.value, ast.Call):
+                call = st.value
+            elif isinstance(st, (ast.Assign, ast.Return)) and isinstance(st.value, ast.Call):
+                call = st.value
+            if call is not None and simple(call.func) and not call.keywords:
+                for i, a in enumerate(call.args):
+                    if simple(a):
+                        continue
+                    if isinstance(a, (ast.Call, ast.BinOp, ast.Subscript)) and not any(isinstance(x, (ast.Starred, ast.Lambda, ast.GeneratorExp, ast.ListComp, ast.Yield, ast.Await, ast.NamedExpr)) for x in ast.walk(a)):
+                        nm = f"_ev{k}"
+                        out.append(ast.Assign(targets=[ast.Name(id=nm, ctx=ast.Store())], value=a, lineno=st.lineno))
+                        call.args[i] = ast.Name(id=nm, ctx=ast.Load())
+                        k += 1
+                    break
+            out.append(st)
+        body[:] = out
+    todo = [fn]
+    while todo:
+        n = todo.pop()
+        for field in ("body", "orelse", "finalbody"):
+            blk = getattr(n, field, None)
+            if isinstance(blk, list) and blk and isinstance(blk[0], ast.stmt):
+                for st in blk:
+                    if not isinstance(st, (ast.FunctionDef, ast.AsyncFunctionDef, ast.ClassDef)):
+                        todo.append(st)
+                do(blk)
+        if isinstance(n, ast.Try):
+            for h in n.handlers:
+                todo.extend(h.body)
+                do(h.body)
+    return k
+
+
+OPS = {"rename-locals": rename_locals, "temp-return": temp_return, "flip-if": flip_if, "insert-log": insert_log,
+       "annotate-locals": annotate_locals, "extract-arg": extract_arg}
 
 
 def rename_params(dst: Path, module: str, fname) -> int:
